@@ -68,6 +68,29 @@ EventOk(e) ==
     [] e.ev = "unbound" -> FALSE
     [] OTHER -> TRUE
 
+\* the smallest sub-value / type pair that makes a rejected membership fail, for classification:
+\* [wv |-> summary of the offending value, wt |-> the type it should have had,
+\*  exh |-> it is the value carried by an exhausted iterator result (false, v)]
+Summary(v) == IF v.k \in {"int", "bool", "float"} /\ "v" \in DOMAIN v THEN [k |-> v.k, v |-> v.v]
+              ELSE IF v.k = "array" THEN [k |-> "array", tag |-> v.tag, n |-> Len(v.es)]
+              ELSE [k |-> v.k]
+RECURSIVE Witness(_, _, _)
+Witness(v, ty, exh) ==
+  LET t == Unwire(ty) IN
+  IF v.k = "tuple" /\ ty.k = "tuple" /\ Len(v.es) = Len(ty.es)
+     /\ \E i \in 1..Len(v.es) : ~InType(v.es[i], ty.es[i])
+  THEN LET i == CHOOSE i \in 1..Len(v.es) : ~InType(v.es[i], ty.es[i]) /\ \A j \in 1..(i - 1) : InType(v.es[j], ty.es[j])
+       IN Witness(v.es[i], ty.es[i], Len(v.es) = 2 /\ i = 2 /\ v.es[1] = [k |-> "bool", v |-> FALSE])
+  ELSE IF v.k = "array" /\ ty.k = "array" /\ Matches(Arr(Unwire(v.tag)), t)
+          /\ \E i \in 1..Len(v.es) : ~InType(v.es[i], ty.e)
+  THEN Witness(v.es[CHOOSE i \in 1..Len(v.es) : ~InType(v.es[i], ty.e)], ty.e, FALSE)
+  ELSE [wv |-> Summary(v), wt |-> ty, exh |-> exh]
+
+WitnessOf(e) ==
+  IF e.ev \in {"ret", "arg", "result", "alloc", "final"} THEN Witness(e.v, e.ty, FALSE)
+  ELSE IF e.ev = "write" /\ e.new.k # "none" /\ ~InType(e.new, e.ty) THEN Witness(e.new, e.ty, FALSE)
+  ELSE [wv |-> [k |-> "n/a"], wt |-> [k |-> "n/a"], exh |-> FALSE]
+
 Init == l = 1 /\ bad = {}
 Consume == /\ l <= Len(Rec)
            /\ l' = l + 1
@@ -79,5 +102,5 @@ Spec == Init /\ [][Next]_vars
 Accepted ==
   /\ TLCGet("stats").diameter = Len(Rec) + 1
   /\ PrintT(<<"EVENTS", Len(Rec)>>)
-  /\ \A i \in 1..Len(Rec) : EventOk(Rec[i]) \/ PrintT(<<"BAD", ToJson([i |-> i, e |-> Rec[i]])>>)
+  /\ \A i \in 1..Len(Rec) : EventOk(Rec[i]) \/ PrintT(<<"BAD", ToJson([i |-> i, e |-> Rec[i], w |-> WitnessOf(Rec[i])])>>)
 =============================================================================
